@@ -27,6 +27,55 @@ Theorem C16_decimal_digits_parse : forall z : Z, 0 <= z -> parse_digits 10 (dec_
 Proof. exact parse_dec_of_nat. Qed.
 Print Assumptions C16_decimal_digits_parse.
 
+(* the fixed-width hexadecimal and binary digit strings that the lossless text forms are made of (posit hex_format, the
+   0b strings of cfloat and fixpnt, integer hex literals) parse back to the number they were printed from, at every width;
+   the strings themselves are compared byte for byte with the library's output (ops hexstr / binstr) *)
+Theorem C16_hex_digits_roundtrip : forall (k : nat) a acc, 0 <= a < 16 ^ Z.of_nat k ->
+  parse_digits 16 (hex_fixed k a) acc = Some (acc * 16 ^ Z.of_nat k + a).
+Proof. exact hex_fixed_parse. Qed.
+Print Assumptions C16_hex_digits_roundtrip.
+Theorem C16_bin_digits_roundtrip : forall (k : nat) a acc, 0 <= a < 2 ^ Z.of_nat k ->
+  parse_digits 2 (bin_fixed k a) acc = Some (acc * 2 ^ Z.of_nat k + a).
+Proof. exact bin_fixed_parse. Qed.
+Print Assumptions C16_bin_digits_roundtrip.
+Theorem C16_integer_hex_roundtrip : forall (k : nat) a, 0 <= a < 16 ^ Z.of_nat k -> parse_int (48 :: 120 :: hex_fixed k a) = Some a.
+Proof. exact parse_int_hex. Qed.
+Print Assumptions C16_integer_hex_roundtrip.
+(* cfloat: assign (to_binary x) = x for every width and exponent size -- cf_assign is a transcription of cfloat::assign's two
+   passes (character filter + counters, then bit fill with the exponent-field count check), cf_bin_string of to_binary *)
+Theorem C16_cfloat_binary_roundtrip : forall n es a, 0 <= es -> es + 1 <= n -> 0 <= a < 2 ^ n ->
+  cf_assign n es (cf_bin_string n es a) = a.
+Proof. exact cf_assign_to_binary. Qed.
+Print Assumptions C16_cfloat_binary_roundtrip.
+Example C16_cfloat_assign_rejects :
+  cf_assign 8 2 [48; 98; 49; 46; 48; 49; 46; 48; 48; 49; 48; 49] = 0xA5 /\           (* "0b1.01.00101" *)
+  cf_assign 8 2 [48; 98; 49; 46; 48; 49; 48; 46; 48; 49; 48; 49] = 0 /\              (* three exponent characters: rejected *)
+  cf_assign 8 2 [48; 98; 49; 46; 48; 49; 46; 48; 48; 39; 49; 48; 49] = 0xA5 /\       (* nibble marker skipped *)
+  cf_assign 8 2 [48; 98; 49; 48; 49; 48; 48; 49; 48; 49] = 0.                        (* no field separators: rejected *)
+Proof. vm_compute. repeat split; reflexivity. Qed.
+(* fixpnt: assign (to_binary x) = x for every nbits, rbits (fx_assign transcribes the binary branch of fixpnt::assign) *)
+Theorem C16_fixpnt_binary_roundtrip : forall n r a, 0 <= r <= n -> 1 <= n -> 0 <= a < 2 ^ n ->
+  fx_assign n r (fx_bin_string n r a) = a.
+Proof. exact fx_assign_to_binary. Qed.
+Print Assumptions C16_fixpnt_binary_roundtrip.
+Example C16_fixpnt_assign_rejects :
+  fx_assign 8 4 [48; 98; 48; 48; 48; 49; 46; 49; 48; 48; 48] = 0x18 /\        (* "0b0001.1000" *)
+  fx_assign 8 4 [48; 98; 48; 48; 48; 49; 49; 46; 48; 48; 48] = 0 /\           (* radix point at position 3: cleared *)
+  fx_assign 8 4 [48; 98; 48; 48; 48; 49; 46; 49; 48; 39; 48; 48] = 0x18 /\    (* nibble marker skipped *)
+  fx_assign 8 4 [48; 98] = 0.
+Proof. vm_compute. repeat split; reflexivity. Qed.
+(* integer: parse (to_hex x) = x -- to_hex prints "0x" and 1 + (nbits-1)/4 upper-case hexits of the two's complement pattern *)
+Theorem C16_integer_to_hex_roundtrip : forall n a, 1 <= n -> 0 <= a < 2 ^ n -> parse_int (int_hex_string n a) = Some a.
+Proof. exact parse_int_hex_string. Qed.
+Print Assumptions C16_integer_to_hex_roundtrip.
+Example C16_strings_witness :
+  posit_hex_string 8 0 0x40 = [56; 46; 48; 120; 48; 120; 52; 48; 112] /\          (* "8.0x0x40p" *)
+  posit_hex_string 3 1 5 = [51; 46; 49; 120; 48; 120; 53; 112] /\                  (* "3.1x0x5p" *)
+  cf_bin_string 8 2 0xA5 = [48; 98; 49; 46; 48; 49; 46; 48; 48; 49; 48; 49] /\     (* "0b1.01.00101" *)
+  fx_bin_string 8 4 0x18 = [48; 98; 48; 48; 48; 49; 46; 49; 48; 48; 48] /\         (* "0b0001.1000" *)
+  fx_bin_string 4 4 0x9 = [48; 98; 48; 46; 49; 48; 48; 49].                        (* "0b0.1001" *)
+Proof. vm_compute. repeat split; reflexivity. Qed.
+
 (* kernel-evaluated instances of print/parse on the model (the implementation's round trips are what the correspondence decides) *)
 Example C16_witness :
   parse_int (dec_of_Z 123456789012345678901234567890) = Some 123456789012345678901234567890 /\
